@@ -46,6 +46,29 @@ type icache struct {
 	sync.RWMutex
 	expire time.Duration
 	items  map[string]item
+	// gen counts account changes (update, delete) seen by the cache
+	gen uint64
+}
+
+// generation returns the current change counter
+func (i *icache) generation() uint64 {
+	i.RLock()
+	defer i.RUnlock()
+	return i.gen
+}
+
+// setIfUnchanged caches v unless an account was updated or deleted
+// since gen was read: v may have been fetched before that change.
+func (i *icache) setIfUnchanged(k string, v Account, gen uint64) {
+	cpy := v
+	i.Lock()
+	if i.gen == gen {
+		i.items[k] = item{
+			exp:   time.Now().Add(i.expire),
+			value: cpy,
+		}
+	}
+	i.Unlock()
 }
 
 func (i *icache) set(k string, v Account) {
@@ -72,6 +95,7 @@ func (i *icache) update(k string, props MutableProps) {
 	i.Lock()
 	defer i.Unlock()
 
+	i.gen++
 	item, found := i.items[k]
 	if found {
 		updateAcc(&item.value, props)
@@ -85,6 +109,7 @@ func (i *icache) update(k string, props MutableProps) {
 
 func (i *icache) Delete(k string) {
 	i.Lock()
+	i.gen++
 	delete(i.items, k)
 	i.Unlock()
 }
@@ -167,13 +192,17 @@ func (c *IAMCache) GetUserAccount(access string) (Account, error) {
 		return acct, nil
 	}
 
+	// an account change that completes while the account is being fetched
+	// must not be overwritten in the cache by the older fetched state
+	gen := c.iamcache.generation()
+
 	a, err := c.service.GetUserAccount(access)
 	if err != nil {
 		return Account{}, err
 	}
 
 	verifhook.At("iam.fetched", "access", access)
-	c.iamcache.set(access, a)
+	c.iamcache.setIfUnchanged(access, a, gen)
 	return a, nil
 }
 
